@@ -5,7 +5,7 @@ REPO=${REPO:-/repo}; cd $REPO || exit 2
 if [ -n "$(git status --porcelain)" ]; then echo "/repo is dirty, refusing"; exit 2; fi
 for p in "$1"/n*.diff; do
   if ! git apply "$p" 2>/dev/null; then echo "$(basename $p): DOES-NOT-APPLY"; continue; fi
-  out=$(${LINT:-/verif/bin/conduitlint} -repo $REPO -verif /verif -prop ALL 2>&1)
+  out=$(${LINT:-/verif/bin/conduitlint} -repo $REPO -verif ${VERIFDIR:-/verif} -prop ALL 2>&1)
   git checkout -q -- . ; git clean -fdq
   bad=$(echo "$out" | grep -E "^\s+(VIOLATION|UNDECIDED|UNRESOLVED)" | sed 's/^ *//' | cut -c1-220)
   if [ -z "$bad" ]; then echo "$(basename $p): silent"; else echo "$(basename $p): ALARM"; echo "$bad" | sed 's/^/    /'; fi
